@@ -546,17 +546,24 @@ Definition starts_of (lens : list Z) : list Z := removelast (0 :: cumsum lens).
      new_lengths = lengths+1; new_array = ragged(np.empty(sum), new_lengths)
      new_array[:, :-1] = sequences; new_array[:, -1] = sep; ravel(); drop the last byte unless keep_last
    [fill] is whatever np.empty returned. *)
+(* the arithmetic of join, named so that the bridge (Bridge/C07.v) can equate it with the formulas regenerated
+   from /repo (Gen/C07.v): row length with its separator, how many columns `[:, :-1]` covers, the flat position
+   `[:, -1]` addresses in a row starting at s, how many trailing bytes are dropped *)
+Definition m_join_new_len (l : Z) : Z := l + 1.
+Definition m_join_body_len (l : Z) : Z := l.
+Definition m_join_sep_pos (s l : Z) : Z := s + l.
+Definition m_join_drop (keep_last : bool) : Z := if keep_last then 0 else 1.
 Definition m_join_fill (fill : list Z) (rows : list (list Z)) (sep : Z) (keep_last : bool) : list Z :=
   let lens := map len rows in
-  let nl := map (fun l => l + 1) lens in
+  let nl := map m_join_new_len lens in
   let total := sumZ nl in
   let st := starts_of nl in
   let data0 := firstn (Z.to_nat total) (fill ++ repeat 0 (Z.to_nat total)) in
-  let idxA := concat (map2 (fun s l => arange_from s (Z.to_nat l)) st lens) in      (* flat indices of [:, :-1] *)
+  let idxA := concat (map2 (fun s l => arange_from s (Z.to_nat (m_join_body_len l))) st lens) in   (* flat indices of [:, :-1] *)
   let data1 := scatter data0 idxA (concat rows) in
-  let idxB := map2 (fun s l => s + l) st lens in                                     (* flat indices of [:, -1] *)
+  let idxB := map2 m_join_sep_pos st lens in                                                    (* flat indices of [:, -1] *)
   let data2 := scatter data1 idxB (repeat sep (length idxB)) in
-  if keep_last then data2 else removelast data2.
+  if m_join_drop keep_last =? 0 then data2 else removelast data2.
 Definition m_join := m_join_fill [].
 
 (* rows of a contiguous ragged array from flat data and row lengths *)
@@ -570,12 +577,15 @@ Fixpoint set_last {A} (v : A) (l : list A) : list A :=
 (* strops.split (308-337): us = data + one zero; mask = (us == sep); mask[-1] = True;
    sep_idx = flatnonzero(mask); lens = diff([0]+sep_idx); lens[0] = sep_idx[0]+1;
    ragged(us, lens)[:, :-1] *)
+Definition m_split_first_len (i0 : Z) : Z := i0 + 1.      (* lens[0] = sep_idx[0]+1 *)
+Definition m_split_forced_index : Z := -1.                  (* mask[-1] = True  (set_last) *)
+Definition m_split_row_len (l : Z) : Z := l - 1.            (* ragged_array[:, :-1]  (removelast per row) *)
 Definition m_split (s : list Z) (sep : Z) : list (list Z) :=
   let us := s ++ [0] in
   let mask := set_last true (map (fun x => x =? sep) us) in
   let sep_idx := flatnonzero mask in
   let lens := match diff (0 :: sep_idx) with
-              | _ :: r => (nthZ sep_idx 0 + 1) :: r
+              | _ :: r => m_split_first_len (nthZ sep_idx 0) :: r
               | [] => [] end in
   map (@removelast Z) (rows_by_lens us lens).
 
@@ -590,17 +600,19 @@ Fixpoint refine_mask (mask : list bool) (sub : list bool) : list bool :=
                  | [] => true :: refine_mask r []
                  end
   end.
+Definition m_streq_mask (l L : Z) : bool := l =? L.           (* sequences.lengths == L, per row *)
+Definition m_streq_index (st k : Z) : Z := st + k.           (* starts[:, np.newaxis] + np.arange(L), per (row, column) *)
 Definition m_streq (rows : list (list Z)) (s : list Z) : list bool :=
   let lens := map len rows in
   let flat := concat rows in
   let L := len s in
-  let mask := map (fun l => l =? L) lens in
+  let mask := map (fun l => m_streq_mask l L) lens in
   let starts := mask_select mask (starts_of lens) in
-  let matrix := map (fun st => map (fun k => nthZ flat (st + k)) (arange L)) starts in
+  let matrix := map (fun st => map (fun k => nthZ flat (m_streq_index st k)) (arange L)) starts in
   refine_mask mask (map (fun row => all_true (map2 Z.eqb row s)) matrix).
 (* _str_equal_two_encoded_ragged_arrays (375-380) *)
 Definition m_streq2 (rows l : list (list Z)) : list bool :=
-  let mask := map2 (fun a b => len a =? len b) rows l in
+  let mask := map2 (fun a b => m_streq_mask (len a) (len b)) rows l in
   refine_mask mask (map2 (fun a b => all_true (map2 Z.eqb a b)) (mask_select mask rows) (mask_select mask l)).
 
 (* util/ragged_slice.py -> npstructures.ragged_slice on the *flattened* array (base_starts = 0,
@@ -686,3 +698,16 @@ Definition dec_value (v : value) : value :=
   | VC e c => VC e (decode1 e c)
   end.
 Definition dec_obs (o : obs) : obs := match o with OV v => OV (dec_value v) | _ => o end.
+
+(* ---- source shapes the bridge compares literally (Gen/C07.v carries the text found in /repo) ---- *)
+Import String.
+(* split: the row lengths are differences of consecutive separator positions after a leading 0  (diff (0 :: sep_idx)) *)
+Definition m_split_lens_src : string := "np.diff(unsafe_extend_left(sep_idx))"%string.
+(* str_equal / _str_equal_two: the rows that passed the length test are kept iff ALL their columns match  (refine_mask) *)
+Definition m_streq_refine_src : string := "mask[mask] &= np.all(matrix == match_string, axis=-1)"%string.
+Definition m_streq2_refine_src : string := "mask[mask] &= (sequences[mask] == sequences_b[mask]).all(axis=-1)"%string.
+(* bnp.ragged_slice hands the FLATTENED array and the bounds, unchanged, to npstructures  (m_rslice: offsets into concat rows) *)
+Definition m_rslice_call_src : string := "nps.ragged_slice(array.ravel(), starts, ends)"%string.
+(* string_array pads on the right (strip0 removes trailing NULs) and answers empty strings itself when there is no text *)
+Definition m_sarr_pad_side : string := "right"%string.
+Definition m_sarr_empty_guard_src : string := "input_data.size == 0"%string.
